@@ -1,0 +1,36 @@
+//go:build verif
+
+package fzf
+
+import (
+	"fmt"
+
+	"github.com/junegunn/fzf/src/tui"
+)
+
+// Verification hooks (build tag verif): run the unexported Terminal.constrain on a minimal Terminal
+// (single-line items, no gap, no header, no input section). No logic of their own.
+
+type verifWindow struct {
+	tui.Window
+	h int
+}
+
+func (w verifWindow) Height() int { return w.h }
+
+// VerifConstrain sets cy/offset/scrollOff on a Terminal whose list has `count` items and whose list window has
+// `height` rows, runs constrain() and returns the resulting cy and offset (panicked != "" if it panicked).
+func VerifConstrain(count, height, scrollOff, cy, offset int) (ncy, noffset int, panicked string) {
+	defer func() {
+		if r := recover(); r != nil {
+			panicked = fmt.Sprint(r)
+		}
+	}()
+	t := &Terminal{inputless: true, scrollOff: scrollOff, cy: cy, offset: offset,
+		window: verifWindow{h: height}, merger: &Merger{count: count}}
+	t.constrain()
+	return t.cy, t.offset, ""
+}
+
+// VerifWriteTemporaryFile/VerifRemoveFiles expose the two temp-file primitives.
+func VerifRemoveFiles(files []string) { removeFiles(files) }
